@@ -487,9 +487,9 @@ def digitsOf {α : Type} (A : Arith α) (cfg : Cfg) (fuel : Nat) (r : α) (preci
   pure { ip, fp, ep, signCount, precision, withExp }
 
 /-- the buffer-filling part: exponent, fraction digits, point, integer digits -/
-def fillBuf {α : Type} (A : Arith α) (cfg : Cfg) (ops : Ops) (isShort : Bool) (d : Digits α) : M Buf := do
+def fillBuf {α : Type} (A : Arith α) (cfg : Cfg) (ops : Ops) (isShort : Bool) (d : Digits α) : M Buf :=
   -- postfix = end = str = &buff[0] + sizeof buff - 1; *end = '\0';
-  if cfg.size = 0 then throw Err.fault
+  if cfg.size = 0 then .error .fault else do
   let b : Buf := {}
   let b ←
     (if d.withExp then do
@@ -526,6 +526,14 @@ def printF {α : Type} (A : Arith α) (cfg : Cfg) (fuel : Nat) (r : α) (nanNeg 
     let zeroLeft : Int :=
       if isShort && (!cfg.repaired || !ops.spec) then 0 else d.precision - d.signCount
     layout cfg ops width pfx b zeroLeft
+
+/-- outcome of one `print_f` call as a `Res` -/
+def resOf : M (List Char × Int) → Res
+  | .ok (out, pc) => .done out pc
+  | .error .fault => .fault
+  | .error .undef => .undef
+  | .error .diverged => .diverged
+  | .error .unmodelled => .unmodelled
 
 /-! ### the way from `__printf` to `print_f` -/
 
